@@ -22,7 +22,8 @@ def run(chk):
              "ReverseSolution(reverse_solution_ != paths_reversed), PreserveCollinear(preserve_collinear_) - all 16 cells")
     chk.rule("LOOP", "nothing written while offsetting one group is read while offsetting the next (several groups in one ClipperOffset)")
     chk.rule("GROUP.strip-closed", "Group::Group strips a closing vertex (last == first) exactly for EndType::Polygon and EndType::Joined")
-    chk.rule("TARGET.set", "solution and solution_tree are both written by every ClipperOffset::Execute overload before ExecuteInternal reads them")
+    chk.rule("TARGET.set", "solution, solution_tree and the derived miter threshold temp_lim_ are written by every ClipperOffset::Execute overload before "
+             "they are read (output target of this call; MiterLimit() set after construction is honoured)")
     chk.rule("OFFSET.sign", "|delta| < 0.5 copies the inputs; group_delta_ = -delta iff a Polygon group is reversed, |delta| for open paths; "
              "a group is reversed iff its lowest path has negative area")
     for cfg in cfgs:
@@ -38,7 +39,9 @@ def run(chk):
         # object must not send its result to the tree of the earlier call): def-before-use of the two target members only - the other
         # scratch members are decided under C12
         TGT = dict(OFF)
-        TGT["dbu"] = {"solution": 1, "solution_tree": 1}
+        # (temp_lim_, the miter threshold derived from the MiterLimit option, is in the same position: it must be re-derived by every
+        # Execute, otherwise a limit changed through the setter is not honoured)
+        TGT["dbu"] = {"solution": 1, "solution_tree": 1, "temp_lim_": 1}
         TGT["allow"] = dict(OFF["allow"])
         for k in OFF["dbu"]:
             if k not in TGT["dbu"]:
